@@ -169,7 +169,7 @@ func c06r2(r *R) {
 	}
 	// Kerberos upstream injector guard
 	ku := r.method(".", "HTTPProxy", "injectKerberosUpstreamProxyAuthorizationHeader")
-	for _, lit := range ku.AnonFuncs {
+	for _, lit := range anonFuncs(ku) {
 		for _, c := range calls(lit, nameIs("(net/http.Header).Set")) {
 			gs := strings.Join(guardStrings(c.Block()), " ∧ ")
 			good := strings.Contains(gs, `!($0.URL.Scheme != "http")`) && strings.Contains(gs, `!($0.Method == "CONNECT")`) && strings.Contains(gs, "#0 != nil)")
